@@ -79,6 +79,15 @@ func parseFloat32(s []byte) float32 {
 //
 // For example, roundUpTo(0.0001, 100) -> 0.01.
 func roundUpTo(value float32, granularity float64) float32 {
+	// A value which is within float32 precision (one unit in the last place)
+	// of a multiple of 1/granularity is that multiple: 0.3 must not become
+	// 0.31 just because the nearest float32 to 0.3 is very slightly larger.
+	if scaled := float64(value) * granularity; scaled != 0 {
+		if r := math.Round(scaled); r != 0 &&
+			math.Abs(scaled-r) <= math.Abs(scaled)/(1<<23) {
+			return float32(r / granularity)
+		}
+	}
 	if value > 0 {
 		return float32(math.Ceil(float64(value)*granularity) / granularity)
 	} else if value < 0 {
